@@ -5,7 +5,7 @@ from sim.core import Violation, Inconclusive, InjectedAbort, RandomProxy, patche
 from sim.models import nested_variant_spec, rare_catastrophe_spec, gen_mdp_spec, MDPView, make_mdp, sibling_mdp_spec, rotated_probability_spec, update_model_in_place
 from sim.refsolve import optimal_values, evaluate, game_W
 from sim.heur import gen_heuristic, build_heuristic, is_monotone
-from sim.ctx import RunCtx, make_scheduler, gen_sched
+from sim.ctx import RunCtx, make_scheduler, gen_sched, construct
 from sim import shrink as shr
 
 PROP = 'C04'
@@ -73,7 +73,7 @@ def execute(case, script=None):
     ctx = RunCtx(PROP, view)
     ctx.W = game_W(view)
     ctx.declare_probes('absorbing_initial_state', 'absorbing_initial_labelled_by_entry', 'monotone_heuristic', 'non_monotone_heuristic',
-                       'nonzero_heuristic_at_absorbing', 'unproductive_trial', 'trial_events', 'timestep_events', 'undiscounted', 'planner_reused', 'trial_cap_exact', 'rerun_after_abort', 'model_updated_in_place', 'nested_run')
+                       'nonzero_heuristic_at_absorbing', 'unproductive_trial', 'trial_events', 'timestep_events', 'undiscounted', 'planner_reused', 'trial_cap_exact', 'rerun_after_abort', 'model_updated_in_place', 'nested_run', 'constructed_by_position')
     sched = make_scheduler(case, script, ctx)
     try:
         return _execute(lr, view, case['cfg'], ctx, sched)
@@ -203,8 +203,11 @@ def _execute(lr, view, cfg, ctx, sched):
         proxy = RandomProxy(the_sched)
         with patched_random([lr], proxy):
             try:
-                planner = lr.LRTDP(heuristic=lambda s: htab[sid[s]], seed=cfg['seed'], bellman_error_margin=eps, randomize_action_order=cfg['rao'],
-                                   iterations=iterations_cap, event_listener_class=L)
+                positional = (len(view.spec['trans']) + view.n) % 3 == 0      # a third of the planners are built by position
+                if positional:
+                    ctx.probe('constructed_by_position')
+                planner = construct(lr.LRTDP, 'LRTDP', dict(heuristic=lambda s: htab[sid[s]], seed=cfg['seed'], bellman_error_margin=eps, randomize_action_order=cfg['rao'],
+                                    iterations=iterations_cap, event_listener_class=L), positional)
                 sib = sibling_mdp_spec(view.spec, cfg['reuse']) if (allow_reuse and cfg.get('reuse') is not None) else None
                 if sib is not None and cfg['reuse'] % 2 == 1:
                     # fault F6: a first run on the SAME problem and objects is aborted by an exception thrown from a model call-back
